@@ -96,7 +96,7 @@ DEFAULT_CFG = dict(
     mix_between=dict(remove=2, consume=1, reset=1, bump=3, reopen=1, purge=0, crash=0, trace=1, search=1, check=1),
     mix_actor=dict(add=1, record=1, next=1, versions=1, trace=1, search=1, facet=1, fesearch=1, check=2),
     kill=(0, 1), reset_conn=(0, 1), crash_mid=(0, 1), real_hash=(1, 50), stop_on=None, nonfatal=(),
-    enum=0, exdev=False, enospc=(0, 1), msv=(1, 6), max_images=160, mix_enum=dict(update=1), enum_clients=2, enum_ops=2, real_kill=(1, 3),
+    enum=0, exdev=False, enospc=(0, 1), msv=(1, 6), max_images=160, mix_enum=dict(update=1), enum_clients=2, enum_ops=2, real_kill=(0, 1), calibrate=0,
 )
 
 
@@ -763,7 +763,7 @@ class StoreWorld:
                 self.check_stop()
             self.between()
             self.check_stop()
-            if cfg['enum']:
+            if cfg['enum'] or cfg['calibrate'] or cfg['real_kill'][0]:
                 from worlds import store_crash
 
                 store_crash.enumerate_updates(self)
